@@ -2,6 +2,7 @@ package main
 
 import (
 	"fmt"
+	"github.com/shopspring/decimal"
 	"regexp"
 	"strings"
 
@@ -69,7 +70,7 @@ func strCheck(want string) func(h.Outcome) string {
 
 func c18(c *Ctx) {
 	maxS := c.N(5, 5)
-	c.Rule = fmt.Sprintf("exhaustive: all strings of length <=%d over {a,b,c} x all needles of length <=3 x {Contains,NotContains,Prefix,NotPrefix,Suffix,NotSuffix}; x n in 0..7 x {Left,Right,TrimLeft,TrimRight}; ReplaceAll x non-empty needles of length <=2 x 3 replacements; each compared with the model and with Go's strings package; random: ASCII/non-ASCII strings, regex patterns and templates from a generator with Go's regexp as oracle; arguments as literal, numeric string, path. Non-trivial = subject non-empty; distinct by (query, data).", maxS)
+	c.Rule = fmt.Sprintf("exhaustive: all strings of length <=%d over {a,b,c} x all needles of length <=3 x {Contains,NotContains,Prefix,NotPrefix,Suffix,NotSuffix}; x n in 0..7 x {Left,Right,TrimLeft,TrimRight}; ReplaceAll x non-empty needles of length <=2 x 3 replacements; each compared with the model and with Go's strings package; random: ASCII/non-ASCII strings, regex patterns and templates from a generator with Go's regexp as oracle; arguments as literal, numeric string, path; ReplaceAll / ReplaceRegex with (path, literal), (literal, path) and (path, path) arguments. Non-trivial = subject non-empty; distinct by (query, data).", maxS)
 	subjects := allStrings("abc", maxS)
 	needles := allStrings("abc", 3)
 	type bf struct {
@@ -116,6 +117,14 @@ func c18(c *Ctx) {
 			for _, r := range []string{"", "x", "ab"} {
 				ec := c.AddEval("$.s.ReplaceAll("+qlit(n)+","+qlit(r)+")", doc, "replace-all", true, s != "")
 				ec.Check = strCheck(strings.ReplaceAll(s, n, r))
+				// the same call with one or both arguments read from the data: (path, literal), (literal, path), (path, path)
+				if r != "" && len(s) <= 3 {
+					doc2 := h.Obj("s", h.Str(s), "f", h.Str(n), "r", h.Str(r))
+					for _, args := range []string{"$.f," + qlit(r), qlit(n) + ",$.r", "$.f,$.r"} {
+						ec := c.AddEval("$.s.ReplaceAll("+args+")", doc2, "replace-all-path-arguments", true, s != "")
+						ec.Check = strCheck(strings.ReplaceAll(s, n, r))
+					}
+				}
 			}
 		}
 	}
@@ -214,7 +223,22 @@ func c18(c *Ctx) {
 		if err == nil {
 			ec2.Check = strCheck(re.ReplaceAllString(subj, tpl))
 		}
+		if err == nil && ratStrOK(pat) == false && ratStrOK(tpl) == false {
+			// the pattern read from the data and the template written as a literal, and the other way round
+			doc3 := h.Obj("s", h.Str(subj), "p", h.Str(pat), "t", h.Str(tpl))
+			for _, args := range []string{"$.p," + qlit(tpl), qlit(pat) + ",$.t"} {
+				ec3 := c.AddEval("$.s.ReplaceRegex("+args+")", doc3, "regex-replace-path-arguments", true, true)
+				ec3.Eng = eng
+				ec3.Check = strCheck(re.ReplaceAllString(subj, tpl))
+			}
+		}
 	}
+}
+
+// ratStrOK: the text is a numeral (a string read from the data would become a number)
+func ratStrOK(s string) bool {
+	_, err := decimal.NewFromString(s)
+	return err == nil
 }
 
 func validUTF8NoNUL(s string) bool {
